@@ -1,17 +1,18 @@
-use std::time::Instant;
-use harper_core::parsers::Parser;
 fn main() {
     let f = std::env::args().nth(1).unwrap();
     let v: serde_json::Value = serde_json::from_str(&std::fs::read_to_string(f).unwrap()).unwrap();
     let c: hv::props::docsweep::DocCase = serde_json::from_value(v["case"].clone()).unwrap();
+    println!("{:?}", c.text);
+    use harper_core::parsers::Parser;
     let src: Vec<char> = c.text.chars().collect();
-    let t = Instant::now();
-    let (p, _d) = c.fe.build(&src).unwrap();
-    println!("build {:?}", t.elapsed());
-    let t = Instant::now();
+    let (p, d) = c.fe.build(&src).unwrap();
     let toks = p.parse(&src);
-    println!("parse {:?} tokens={}", t.elapsed(), toks.len());
-    let t = Instant::now();
-    let r = hv::props::docsweep::evaluate(&c);
-    println!("evaluate {:?} ok={}", t.elapsed(), r.is_ok());
+    for t in &toks { println!("{:?} {:?}", t.span, hv::oracle::tokens::kind_label(&t.kind)); }
+    let doc = harper_core::Document::new_from_vec(std::sync::Arc::new(src.clone()), &p, &d);
+    println!("doc ok {}", doc.get_tokens().len());
+    let mut g = harper_core::linting::LintGroup::new_curated(harper_core::FstDictionary::curated(), harper_core::Dialect::American);
+    g.config = c.config.build();
+    use harper_core::linting::Linter;
+    let l = g.lint(&doc);
+    println!("lints {}", l.len());
 }
